@@ -171,8 +171,8 @@ Definition gprog (s : stmt) : program :=
   {| p_behaviors := [ {| b_pre := []; b_inv := [CTab 0]; b_body := [s] |};
                       {| b_pre := []; b_inv := []; b_body := [STake 5; STake 5] |} ];
      p_monitors := []; p_scenarios := [ {| s_pre := []; s_inv := []; s_limit := None; s_termwhen := [];
-                                           s_monitors := []; s_compose := None |} ];
-     p_objects := [Some 0]; p_rec_init := []; p_records := []; p_rec_final := []; p_termsim := [] |}.
+                                           s_monitors := []; s_reqs := []; s_compose := None |} ];
+     p_objects := [Some 0]; p_rec_init := []; p_records := []; p_rec_final := []; p_termsim := []; p_reqs := [] |}.
 Example C13_guards_not_while_sub_runs_refuted :
   let w := {| w_tab := [[true; false; true; true; true; true]] |} in
   r_kind (fst (simulate true 20 100 (gprog (SDo 1)) w (Some 4) (fun _ => [0]))) = RDone TTimeLimit /\
@@ -184,3 +184,41 @@ Example C13_example_latest :
   pick_handler {| w_tab := [] |} 0 (compile_handlers [(CConst true, [STake 1]); (CConst true, [STake 2])]) = Some 0 /\
   nth_error (compile_handlers [(CConst true, [STake 1]); (CConst true, [STake 2])]) 0 = Some (CConst true, [STake 2], None).
 Proof. vm_compute. split; reflexivity. Qed.
+
+(* ---- the compiler's emission of the loop-control checks after a try-interrupt statement
+   (model: fl_stmt / try_flags / compile_try in coq/C12/Dyn.v, mirrored from visit_Break / visit_Continue /
+   visit_TryInterrupt; the `return` check is emitted unconditionally).  A try-interrupt statement is entered
+   with its blocks as compiled: *)
+Theorem C13_try_enters_compiled : forall f P w t m ib o subs body hs ss k0,
+  run (S f) P w t m ib o subs (FSeq (STry body hs :: ss) :: k0) =
+  run f P w t m ib o subs (FTry true o (fst (compile_try body hs)) None (compile_handlers (snd (compile_try body hs))) :: FSeq ss :: k0).
+Proof. reflexivity. Qed.
+(* each of break / continue used anywhere in the blocks (referring to the loop around the statement) has its
+   check emitted, whatever the lexical order of the uses and whichever blocks they are in, provided no block
+   contains a nested try-interrupt statement ... *)
+Theorem C13_loop_control_checks_emitted : forall body hs,
+  forallb (fun b => negb (existsb has_try b)) (blocks_of body hs) = true ->
+  try_flags body hs = (existsb (existsb direct_brk) (blocks_of body hs), existsb (existsb direct_cnt) (blocks_of body hs)).
+Proof. exact flags_complete. Qed.
+(* ... hence every BREAK / CONTINUE conclusion is acted upon as documented (C13_handler_break / _continue
+   apply to the blocks as written) *)
+Theorem C13_checks_emitted_blocks_unchanged : forall body hs,
+  forallb (fun b => negb (existsb has_try b)) (blocks_of body hs) = true -> compile_try body hs = (body, hs).
+Proof. exact checks_emitted_blocks_unchanged. Qed.
+Print Assumptions C13_loop_control_checks_emitted.
+Print Assumptions C13_checks_emitted_blocks_unchanged.
+(* non-vacuity (break in the body, continue in a handler, continue before break in one block: both checks) and
+   the refutation without the side condition (finding F21): a later block containing a try-interrupt wipes the
+   recorded `break`, whose conclusion then merely ends the statement (it is compiled like `abort`) *)
+Example C13_checks_emitted_examples :
+  try_flags [STake 4; SBreak] [(CTab 0, [STake 5; SContinue])] = (true, true) /\
+  try_flags [STake 2] [(CTab 0, [SIf (CTab 1) [SContinue] [SBreak]])] = (true, true) /\
+  try_flags [STake 2] [(CTab 0, [SContinue])] = (false, true).
+Proof. vm_compute. repeat split; reflexivity. Qed.
+Example C13_flags_lost_refuted :
+  exists body hs, existsb (existsb direct_brk) (blocks_of body hs) = true /\ fst (try_flags body hs) = false /\
+                  snd (compile_try body hs) = [(CTab 0, [SAbort]); (CConst false, [STry [STake 5] [(CConst false, [STake 6])]])].
+Proof.
+  exists [STake 2; STake 3], [(CTab 0, [SBreak]); (CConst false, [STry [STake 5] [(CConst false, [STake 6])]])].
+  vm_compute. repeat split; reflexivity.
+Qed.
